@@ -84,6 +84,9 @@ def step (s : Unit) (toks : List String) : Unit × String :=
   let out := match toks with
   | ["reset"] => "ok"
   | "blk" :: mode :: nacc :: n :: rest =>
+    -- `l`/`d`: the harness creates the virtual states lazily; the dependency table is a function
+    -- of the block only (`build`), so the model is the same as for `g`/`f`
+    let mode := if mode = "l" then "g" else if mode = "d" then "f" else mode
     if mode ≠ "g" ∧ mode ≠ "f" then "bad-op"
     else match digits nacc 3, digits n 3 with
       | some nacc, some n => run mode nacc n rest
